@@ -490,21 +490,23 @@ func (tc *treeChecker) check(n *node) {
 			got, err := fr.ReadAt(b, int64(off))
 			tc.calls++
 			want := D[min(off, size):min(off+l, size)]
-			if mc := modelReadAt(n, off, l, false); !bytes.Equal(mc, want) {
-				tc.model++
+			if off+l >= size { // self-check of the classification model (longest read per offset)
+				if mc := modelReadAt(n, off, l, false); !bytes.Equal(mc, want) {
+					tc.model++
+				}
 			}
-			where := fmt.Sprintf("ReadAt(len %d, off %d)", l, off)
+			where := func() string { return fmt.Sprintf("ReadAt(len %d, off %d)", l, off) }
 			switch {
 			case got < 0 || got > l:
-				tc.fail("ReadAt", "bad-count", fmt.Sprintf("%s returned n=%d", where, got))
+				tc.fail("ReadAt", "bad-count", fmt.Sprintf("%s returned n=%d", where(), got))
 			case !bytes.Equal(b[:got], want):
-				tc.fail("ReadAt", classify(b[:got], modelReadAt(n, off, l, true)), fmt.Sprintf("%s = %q, want %q", where, b[:got], want))
+				tc.fail("ReadAt", classify(b[:got], modelReadAt(n, off, l, true)), fmt.Sprintf("%s = %q, want %q", where(), b[:got], want))
 			case !okErr(err):
-				tc.fail("ReadAt", "error", fmt.Sprintf("%s: %v", where, err))
+				tc.fail("ReadAt", "error", fmt.Sprintf("%s: %v", where(), err))
 			case got < l && err == nil:
-				tc.fail("ReadAt", "short-without-error", fmt.Sprintf("%s returned n=%d, nil", where, got))
+				tc.fail("ReadAt", "short-without-error", fmt.Sprintf("%s returned n=%d, nil", where(), got))
 			case got == l && err != nil && off+l < size:
-				tc.fail("ReadAt", "error-before-end", fmt.Sprintf("%s returned %d bytes and %v before the end", where, got, err))
+				tc.fail("ReadAt", "error-before-end", fmt.Sprintf("%s returned %d bytes and %v before the end", where(), got, err))
 			}
 		}
 	}
@@ -559,18 +561,20 @@ func (tc *treeChecker) check(n *node) {
 				np, err = fr.Seek(int64(pos-size), wh)
 			}
 			tc.calls++
-			where := fmt.Sprintf("Seek to %d (whence %d)", pos, wh)
+			where := func() string { return fmt.Sprintf("Seek to %d (whence %d)", pos, wh) }
 			if err != nil || np != int64(pos) {
-				tc.fail("Seek", "wrong-position", fmt.Sprintf("%s returned %d, %v", where, np, err))
+				tc.fail("Seek", "wrong-position", fmt.Sprintf("%s returned %d, %v", where(), np, err))
 				continue
 			}
-			got, err := io.ReadAll(fr)
+			// read the rest and one byte more: want the rest, then EOF
+			m, err := io.ReadFull(fr, buf[:max(size-pos, 0)+1])
+			got := buf[:m]
 			tc.calls++
 			want := D[min(pos, size):]
 			if !bytes.Equal(got, want) {
-				tc.fail("Seek", classify(got, modelReadAt(n, pos, size-pos, true)), fmt.Sprintf("%s then read all = %q, want %q", where, got, want))
-			} else if err != nil {
-				tc.fail("Seek", "error", fmt.Sprintf("%s then read all: %v", where, err))
+				tc.fail("Seek", classify(got, modelReadAt(n, pos, size-pos, true)), fmt.Sprintf("%s then read the rest = %q, want %q", where(), got, want))
+			} else if err != io.EOF && err != io.ErrUnexpectedEOF {
+				tc.fail("Seek", "error", fmt.Sprintf("%s then read the rest: err=%v, want EOF", where(), err))
 			}
 		}
 	}
